@@ -53,6 +53,15 @@ impl Database {
         }
     }
 
+    /// (verification hook) the secondary storage behind this database, if any.
+    #[cfg(feature = "verif")]
+    pub fn verif_secondary_storage(&self) -> Option<Arc<SecondaryStorage>> {
+        match &self.storage {
+            StorageImpl::SecondaryStorage(s) => Some(s.clone()),
+            _ => None,
+        }
+    }
+
     pub async fn shutdown(&self) -> Result<(), Error> {
         if let StorageImpl::SecondaryStorage(storage) = &self.storage {
             storage.shutdown().await?;
